@@ -27,6 +27,12 @@ def load_spec():
         s = importlib.util.spec_from_file_location('rows', rp)
         rows_mod = importlib.util.module_from_spec(s); s.loader.exec_module(rows_mod)
     pre = [os.path.join(SPEC, f) for f in sorted(os.listdir(SPEC)) if f.endswith('.rs')]
+    # overlays generated next to the rows (loop invariants that follow one template for a family of functions)
+    for path, ov in getattr(rows_mod, 'FN_OVERLAYS', {}).items():
+        ent = sp.entry(path)
+        for k, t in ov.get('loops', {}).items(): ent['loops'][k] = ent['loops'].get(k, '') + t
+        for w, t in ov.get('proofs', {}).items(): ent['proofs'][w] = ent['proofs'].get(w, '') + t
+        if ov.get('text'): ent['text'] += ov['text']
     return sp, rows_mod, pre
 
 
